@@ -439,7 +439,13 @@ class LoadEngine(object):
                     " HEALED" if heal else ""))
         w.trace.ev("op", "load")
         w.ops.append(label)
-        kwargs = dict(app_id=app_id, wait=wait, n_tries=n_tries,
+        # (a truth value need not be the object True or False)
+        wait_given = wait
+        if t.draw(4) == 0:
+            import numpy
+            wait_given = [int(wait), numpy.bool_(wait)][t.draw(2)]
+            w.probe("wait_as_other_truth_value")
+        kwargs = dict(app_id=app_id, wait=wait_given, n_tries=n_tries,
                       app_start_delay=delay)
         if not use_count or t.draw(2):
             kwargs["use_count"] = use_count
